@@ -11,6 +11,9 @@ thread_local! {
 
 pub(crate) fn set_active(on: bool) {
     ACTIVE.with(|a| a.set(on));
+    // a reading taken while the kernel state is borrowed falls back to the last published value: never one
+    // of an earlier run
+    LAST.with(|l| l.set(1_000_000_000));
 }
 
 pub fn clock_is_simulated() -> bool {
